@@ -404,6 +404,22 @@ func TestRandomProviders(t *testing.T) {
 				nontrivial = true
 			}
 		}
+		// the same two sources listed the other way round: the first configured source still wins
+		rip := bufconnect.NewAuthorizationInterceptorProvider(bufconnect.NewNetrcTokenProvider(env, netrc.GetMachineForName), envTP)
+		for _, h := range hosts {
+			want := refNetrc(ms, h)
+			if want == "" {
+				want = ref.tokenFor(h)
+			}
+			if got := observeInterceptor(rip, h); got != bearer(want) {
+				key := "wrong-token"
+				if got != "" {
+					key = "first-source-does-not-win"
+				}
+				r.Fail(t, key, fmt.Sprintf("providers listed as [netrc, BUF_TOKEN]: BUF_TOKEN=%q netrc=%v host=%q: Authorization=%q want %q", s, ms, h, got, bearer(want)), c)
+				return
+			}
+		}
 		if len(ms) > 0 {
 			r.Class("with-netrc")
 		}
